@@ -138,6 +138,7 @@ N_C07_LIVE = {"name": "c07_ip_window", "tiers": Q, "tests": {
 TWINS_STACK = {
     "fill_thread_stack": ["native:thread_list_stream::bprime_stack_region_for_every_sp_offset", "native:thread_list_stream::c20_ip_at_end_of_principal_mapping_is_outside"],
     "get_stack_info": ["native:ptrace_dumper::c02_get_stack_info_top_of_address_space"],
+    "app_memory_write": ["kani:vk_app_memory_two_regions"],
 }
 TWINS_DIR = {
     "new": ["native:c09_dest::bprime_destination_equals_image_for_every_short_history"],
@@ -230,8 +231,10 @@ PLAN["C07"] = {
     "level": "proof",
     "explanation": "fill_thread_stack pushes exactly the non-empty stack descriptor whose bytes equal target memory (reader contract); "
                    "memory_list_stream::write serialises the recorded blocks verbatim, in order, with the count the size implies; "
-                   "app_memory::write and the instruction-pointer window are bounded Kani obligations",
-    "verus": [dict(STACK, functions=["fill_thread_stack", "memory_list_stream_write"], tags=["C07"])],
+                   "app_memory::write proved verbatim for any number of requests: one block per request, in order, each naming bytes appended by the call that equal target memory (reader contract); "
+                   "the instruction-pointer window is a bounded Kani obligation plus a native check on a live child",
+    "verus": [dict(STACK, functions=["fill_thread_stack", "memory_list_stream_write"], tags=["C07"]),
+              {"unit": "app_memory", "functions": ["app_memory_write"], "tags": ["C07"], "tiers": Q}],
     "kani": [{"tiers": Q, "jobs": 2, "timeout": 900, "harnesses": {
                  "vk_app_memory_two_regions": H("B", "app_memory::write", "2 requests, symbolic addresses, lengths 1..=3")}},
              {"tiers": T, "jobs": 2, "timeout": 3600, "mem_gb": 24, "harnesses": {"vk_tls_crash_context_thread": K_TLS["vk_tls_crash_context_thread"]}}],
@@ -447,6 +450,7 @@ PLAN["C01"] = {
                    "thread_names_stream::write and app_memory::write by Kani (bounded); exactly 18 entries, each through write_to_file (Kani, thorough)",
     "verus": [dict(STACK, functions=["fill_thread_stack", "memory_list_stream_write", "exception_stream_write"], tags=["C01"]),
               {"unit": "dir_section", "functions": ["new", "dump_dir_entry", "write_to_file"], "tags": ["C01"], "tiers": Q},
+              {"unit": "app_memory", "functions": ["app_memory_write"], "tags": ["C01"], "tiers": Q},
               {"unit": "mem_writer", "functions": None, "tags": ["C16"], "tiers": Q}],
     "kani": [{"tiers": Q, "jobs": 6, "timeout": 1500, "harnesses": dict(K_THREAD_NAMES, **dict(K_ARRAYS, **{"vk_app_memory_two_regions": H("B", "app_memory::write", "2 requests")}))},
              {"tiers": T, "jobs": 3, "timeout": 5400, "mem_gb": 20, "harnesses": dict(K_GENERATE, **K_TLS)}],
@@ -464,6 +468,7 @@ PLAN["C02"] = {
     "verus": [dict(STACK, functions=["get_stack_info", "fill_thread_stack", "crash_thread_references_principal_mapping", "memory_list_stream_write",
                                      "exception_stream_write", "contains_address", "end_address"], tags=["C02"]),
               {"unit": "dir_section", "functions": ["new", "dump_dir_entry", "write_to_file"], "tags": ["C02"], "tiers": Q},
+              {"unit": "app_memory", "functions": ["app_memory_write"], "tags": ["C02"], "tiers": Q},
               {"unit": "mem_writer", "functions": None, "tags": ["C02"], "tiers": Q}],
     "kani": [{"tiers": Q, "jobs": 8, "timeout": 1200, "harnesses": dict(K_HAS_PTR, **dict(K_FIND, **{"vk_safe_to_open_table": H("B", "MappingInfo::is_mapped_file_safe_to_open", "5 concrete names")}))}],
     "native": [N_PD_TOTAL,
